@@ -158,8 +158,17 @@ func clunkHandleXattr(cs *connState, t *tclunk) message {
 
 // handle implements handler.handle.
 func (t *tclunk) handle(cs *connState) message {
+	// The fid goes whatever becomes of the xattr operation it may carry, also
+	// if the backend panics in it.
+	clunked := false
+	defer func() {
+		if !clunked {
+			cs.DeleteFID(t.fid)
+		}
+	}()
 	cerr := clunkHandleXattr(cs, t)
 
+	clunked = true
 	if err := cs.DeleteFID(t.fid); err != nil {
 		return newErr(err)
 	}
@@ -176,6 +185,15 @@ func (t *tremove) handle(cs *connState) message {
 		return newErr(linux.EBADF)
 	}
 	defer ref.DecRef()
+
+	// The fid is clunked whatever becomes of the removal (see below), also if
+	// the backend panics in it.
+	clunked := false
+	defer func() {
+		if !clunked {
+			cs.DeleteFID(t.fid)
+		}
+	}()
 
 	// Frustratingly, because we can't be guaranteed that a rename is not
 	// occurring simultaneously with this removal, we need to acquire the
@@ -218,6 +236,7 @@ func (t *tremove) handle(cs *connState) message {
 	// "It is correct to consider remove to be a clunk with the side effect
 	// of removing the file if permissions allow."
 	// https://swtch.com/plan9port/man/man9/remove.html
+	clunked = true
 	if fidErr := cs.DeleteFID(t.fid); fidErr != nil {
 		return newErr(fidErr)
 	}
